@@ -253,3 +253,142 @@ pub fn u_unit_counts() -> Universe {
     }
     Universe::from_words("U_uc{aab,abb,aabb,11a}^{1..4} subsets of size <=3", w, 3)
 }
+
+/// One representative per "kind" of scalar that some stage of the pipeline treats specially: every ASCII
+/// punctuation character, controls, letters and digits at the ends of their ranges, and non-ASCII scalars at
+/// the boundaries of the escaping / class / cluster tables.
+pub fn kinds() -> Vec<String> {
+    let mut k: Vec<String> = vec![];
+    for c in 0x20u8..0x7f {
+        let ch = c as char;
+        if !ch.is_ascii_alphanumeric() {
+            k.push(ch.to_string());
+        }
+    }
+    for s in [
+        "a", "z", "A", "Z", "0", "9", "\0", "\t", "\n", "\r", "\u{1b}", "\u{7f}", "\u{80}", "\u{a0}", "\u{df}", "\u{e9}", "\u{17f}", "\u{301}",
+        "\u{663}", "\u{e33}", "\u{200d}", "\u{2028}", "\u{212a}", "\u{d7ff}", "\u{e000}", "\u{ffff}", "\u{10000}", "\u{1f3fb}", "\u{10ffff}",
+    ] {
+        k.push(s.to_string());
+    }
+    k
+}
+
+/// Every unordered pair {p,q} of kinds: all sets of at most `m` words of {p,q}^{<=k}. The pairs are the bound:
+/// whatever special treatment one kind gets is exercised next to, before and after every other kind.
+pub fn u_kind_pairs(k: usize, m: usize, with_empty: bool) -> Universe {
+    let ks = kinds();
+    let mut words_all: Vec<String> = vec![];
+    let mut index: std::collections::HashMap<String, usize> = std::collections::HashMap::new();
+    let mut sets: Vec<Vec<usize>> = vec![];
+    let mut seen: std::collections::HashSet<Vec<usize>> = std::collections::HashSet::new();
+    for i in 0..ks.len() {
+        for j in i + 1..ks.len() {
+            let ws = words(&[ks[i].as_str(), ks[j].as_str()], k, with_empty);
+            let ids: Vec<usize> = ws
+                .iter()
+                .map(|w| {
+                    *index.entry(w.clone()).or_insert_with(|| {
+                        words_all.push(w.clone());
+                        words_all.len() - 1
+                    })
+                })
+                .collect();
+            for s in subsets(ids.len(), m) {
+                let mut set: Vec<usize> = s.iter().map(|x| ids[*x]).collect();
+                set.sort();
+                if seen.insert(set.clone()) {
+                    sets.push(set);
+                }
+            }
+        }
+    }
+    Universe { name: format!("U_kindpairs: {{p,q}}^<={k} for all {} pairs of {} scalar kinds, sets of <={m}{}", ks.len() * (ks.len() - 1) / 2, ks.len(), if with_empty { ", with eps" } else { "" }), words: words_all, sets }
+}
+
+/// Runs of consecutive code points: for every start c in ASCII and around the table boundaries, the test cases
+/// c, c+1, .., c+n-1 (n = 2..=5) as single characters, alone, after a common prefix and before a common suffix.
+/// Character-class range formatting ([c-d]) sees every possible pair of end points.
+pub fn u_runs() -> Universe {
+    let mut starts: Vec<u32> = (0u32..0x80).collect();
+    for b in [0xa0u32, 0x2fe, 0x660, 0x2026, 0xd7fa, 0xe000, 0xfffa, 0x1_0000, 0x1f3f9, 0x10_fffa] {
+        starts.push(b);
+    }
+    let mut words_all: Vec<String> = vec![];
+    let mut index: std::collections::HashMap<String, usize> = std::collections::HashMap::new();
+    let mut sets = vec![];
+    for s in starts {
+        for n in 2..=5u32 {
+            let cs: Vec<char> = (s..s + n).filter_map(char::from_u32).collect();
+            if cs.len() != n as usize {
+                continue;
+            }
+            for shape in 0..3 {
+                let set: Vec<usize> = cs
+                    .iter()
+                    .map(|c| {
+                        let w = match shape {
+                            0 => c.to_string(),
+                            1 => format!("q{c}"),
+                            _ => format!("{c}q"),
+                        };
+                        *index.entry(w.clone()).or_insert_with(|| {
+                            words_all.push(w.clone());
+                            words_all.len() - 1
+                        })
+                    })
+                    .collect();
+                sets.push(set);
+            }
+        }
+    }
+    Universe { name: "U_runs: c..c+n-1 (n=2..5) for every ASCII start and 10 table boundaries; bare, after q, before q".to_string(), words: words_all, sets }
+}
+
+/// Long single test cases with MANY repeated substrings (parametric families, every n up to the bound): the
+/// repetition detector sorts, overlaps and splices its ranges, and with more than a handful of ranges the
+/// order of that list matters. n counts the repeated units; shapes: doubled letters, tripled letters, doubled
+/// pairs, each bare, after a nested repetition (xzzzxzzz), and before one.
+pub fn u_long_rep(nmax: usize) -> Universe {
+    let letters: Vec<char> = ('a'..='w').chain('A'..='W').collect();
+    let mut w = vec![];
+    for n in 1..=nmax.min(letters.len()) {
+        let dbl: String = letters[..n].iter().map(|c| format!("{c}{c}")).collect();
+        let tri: String = letters[..n].iter().map(|c| format!("{c}{c}{c}")).collect();
+        let pair: String = letters[..n].iter().map(|c| format!("{c}y{c}y")).collect();
+        let mixed: String = letters[..n].iter().enumerate().map(|(i, c)| if i % 2 == 0 { format!("{c}{c}") } else { format!("{c}") }).collect();
+        for body in [dbl, tri, pair, mixed] {
+            w.push(body.clone());
+            w.push(format!("xzzzxzzz{body}12"));
+            w.push(format!("12{body}xzzzxzzz"));
+            w.push(format!("{body}{body}"));
+        }
+    }
+    Universe::from_words(&format!("U_longrep: n=1..={nmax} repeated units (doubled, tripled, doubled pairs, alternating) bare / after xzzzxzzz / before it / twice"), w, 1)
+}
+
+/// One unit repeated 1..=8 times (a, ab), bare and after a common prefix: every pair / triple of counts, so that
+/// count differences of 1, 2, 3.. between test cases meet every threshold.
+pub fn u_count_gaps() -> Universe {
+    let mut w = vec![];
+    for unit in ["a", "ab"] {
+        for n in 1..=8 {
+            w.push(unit.repeat(n));
+            w.push(format!("x{}", unit.repeat(n)));
+        }
+    }
+    Universe::from_words("U_gaps{a,ab}^{1..8} bare and after x, subsets of size <=3", w, 3)
+}
+
+/// One long run of a single grapheme (n = 1..=nmax) next to material with and without repetitions of its own:
+/// fast paths keyed on the run length, and the handling of what is left over around the run.
+pub fn u_long_runs(nmax: usize) -> Universe {
+    let mut w = vec![];
+    for n in 1..=nmax {
+        let r = "a".repeat(n);
+        for s in [r.clone(), format!("xyz{r}"), format!("{r}xyz"), format!("bcbc{r}xyz"), format!("xyz{r}cdcd"), format!("q{r}q"), format!("{r}b{r}"), format!("{r}{}", "b".repeat(n))] {
+            w.push(s);
+        }
+    }
+    Universe::from_words(&format!("U_longruns: a^n (n=1..={nmax}) bare, after/before xyz, between repeated and unrepeated material, twice, followed by b^n"), w, 1)
+}
